@@ -13,8 +13,8 @@ spark = SparkSession.builder.master("local[1]").config("spark.ui.enabled", "fals
 spark.sparkContext.setLogLevel("ERROR")
 schema = StructType([StructField(c, LongType(), True) for c in c08.COLS])
 rnd = random.Random(808)
-cases = c08.gen_cases(rnd, 330)
-out = open("/verif/oracle/c08_pyspark.jsonl", "w")
+cases = c08.gen_cases(rnd, 330) if "--plans-only" not in sys.argv else []
+out = open("/verif/oracle/c08_pyspark.jsonl", "w") if cases else open(os.devnull, "w")
 n = 0
 for sp, f in cases:
     for tname in ("w1", "w2", "w3"):
@@ -30,4 +30,34 @@ for sp, f in cases:
         n += 1
 out.close()
 print("recorded", n)
+spark.stop()
+
+# ---- second recording: specs built by a sequence of builder calls (repeated / shuffled partitionBy, orderBy, frames) and
+#      windows over frames derived by earlier chain steps   -> oracle/c08_pyspark_plans.jsonl
+spark = SparkSession.builder.master("local[1]").config("spark.ui.enabled", "false").config("spark.sql.shuffle.partitions", "1").getOrCreate()
+spark.sparkContext.setLogLevel("ERROR")
+rnd = random.Random(909)
+cases = c08.gen_cases(rnd, 140)
+out = open("/verif/oracle/c08_pyspark_plans.jsonl", "w")
+n = 0
+for sp, f in cases:
+    plan = c08.make_plan(rnd, sp)
+    if len(plan) == len([1 for k in ("part", "order", "frame") if sp[k]]) and [k for k, _ in plan] == [k for k in ("part", "order", "frame") if sp[k]]:
+        if rnd.random() < 0.7:
+            continue        # the plain call order is already covered by the first recording
+    pre = rnd.choice(c08.PRE_OPS)
+    for tname in ("w1", "w2", "w3"):
+        rows = c08.TABLES[tname]
+        try:
+            df = c08.apply_pre(spark.createDataFrame(rows, schema), pre, F)
+            in_rows = [[r["id"], r["p"], r["k"], r["v"]] for r in df.collect()]
+            got = df.select("id", "p", "k", "v", c08.fun_sf(f, F).over(c08.plan_sf(plan, F, Window)).alias("w")).collect()
+        except Exception as ex:
+            print("skip", c08.plan_str(plan, f), type(ex).__name__, str(ex)[:100])
+            break
+        res = [[(float(x) if isinstance(x, float) else x) for x in r] for r in got]
+        out.write(json.dumps({"plan": plan, "pre": pre, "fun": list(f), "table": tname, "rows": rows, "in_rows": in_rows, "result": res}) + "\n")
+        n += 1
+out.close()
+print("recorded plans", n)
 spark.stop()
